@@ -17,7 +17,7 @@ META = {
                    "scheduler as assignment: trigger closure + reverse-post-order DFS, re-checked here), emits the header, then one "
                    "assignment per argument, then each task once in that order; gen_fun executes exactly mk_fun's text with every "
                    "container label bound to the container object; an ExprTask prints as `target = expr`; the printed expressions are "
-                   "faithful (C11's printing obligations, re-checked here).",
+                   "faithful (C11's printing obligations, re-checked here). The generated def executes with a locals mapping of its own (exec(text, globals, locals)).",
     "decides": "the shape of the generated source and the identity of its schedule with the manager's own",
     "not_decided": "the equivalence of the executed function with the manager on all values (translation validation is another family)",
     "assumptions": ["no division by zero (excluded by the property)"],
